@@ -86,7 +86,7 @@ def _rebuild(asm, repo):
         h = st["helpers"][name]
         asm.fns.pop(h.get("emitted_as", ""), None)
         tmp = U.Assembled()
-        spec = dict(file=h["file"], item=h["item"], kw={}, props=[], attrs=[], sig=None, rules=[], requires=[], loops={},
+        spec = dict(file=h["file"], item=h["item"], kw=dict(h.get("kw", {})), props=[], attrs=[], sig=None, rules=[], requires=[], loops={},
                     entry=[], anchors=[], line=0,
                     ensures=([] if h["opaque"] else ["[AUTO:helper.body-is-the-contract] res == (%s)," % h["expr"]]))
         if h["header"]:
@@ -136,12 +136,31 @@ def adopt(asm, res, repo):
             if key in st["helpers"]:
                 continue
             found = None
+            hkw = {}
+            hitem = key
             for file in _files(asm):
                 try:
                     found = find_fn(repo, file, key)
                     break
                 except Undecided:
                     continue
+            if found is None:
+                # the type's methods may be generated by a macro (`impl $policy { .. }`): look next to the unit's own functions of
+                # that type, with the same macro and metavariable substitution
+                for fname, meta in list(asm.fns.items()):
+                    kw = meta.get("kw") or {}
+                    if not kw.get("macro") or fname.split("::")[0] != tname or "::" not in meta.get("item", ""):
+                        continue
+                    item = meta["item"].rsplit("::", 1)[0] + "::" + meth
+                    try:
+                        sub = dict(x.split(":") for x in kw["subst"].split(",")) if "subst" in kw else None
+                        found = find_fn(repo, meta["file"], item, macro=kw["macro"], subst=sub)
+                        file = meta["file"]
+                        hkw = dict((k, v) for k, v in kw.items() if k in ("macro", "subst"))
+                        hitem = item
+                        break
+                    except Undecided:
+                        continue
             if found is not None and found.trait is None:
                 header = _impl_header(asm, tname)
                 if header is None:
@@ -150,7 +169,7 @@ def adopt(asm, res, repo):
                 pure_recv = bool(params) and params[0] in ("&self", "& self", "self")
                 no_mut = not any("&mut" in x.replace(" ", "") for x in params[1:])
                 expr = _single_expr(found.body) if (pure_recv and no_mut and found.sig_parts["ret"]) else None
-                st["helpers"][key] = dict(file=file, item=key, header=header, opaque=expr is None, expr=expr, method=meth)
+                st["helpers"][key] = dict(file=file, item=hitem, kw=hkw, header=header, opaque=expr is None, expr=expr, method=meth)
                 st["order"].append(key)
                 asm.rule_hits["RH"] = asm.rule_hits.get("RH", 0) + 1
                 asm.notes.append("RH: adopted helper %s from %s:%d (%s)" % (key, file, found.line, "opaque" if expr is None else "postcondition derived from its one-expression body"))
